@@ -11,8 +11,8 @@ NOTE_B = 'Trusted: Kani/CBMC model of the compiled code (dev profile), the stubs
 CLAIMED = {
     'C01': dict(engine='A', technique=TECH_A, ref='DESIGN.md section 4, C01', note=NOTE_A,
                 text='All 2^64 timestamps x 2^32 nanosecond values: from_timespec (month loop unrolled 12x, unwinding obligation discharged), week_day, year_day and the range gate are decided against the defining relation "fields valid and timegm(fields) = t"; every overflow/cast/index site is an obligation.'),
-    'C02': dict(engine='A', technique=TECH_A, ref='DESIGN.md section 4, C02', note=NOTE_A + ' Meta-step: induction over the year from the solver-checked recurrences.',
-                text='days_since_unix_epoch is pinned to the true day count by recurrences (epoch, year step, month step, day step, leap rule) each decided for every i32 year; acceptance <=> real date, error kinds, strict monotonicity over two fully symbolic tuples, second 60. No bound beyond the types.'),
+    'C02': dict(engine='AB', technique=TECH_A + '; ' + TECH_B + ' for derive(Ord)', ref='DESIGN.md section 4, C02', note=NOTE_A + ' Meta-step: induction over the year from the solver-checked recurrences.',
+                text='days_since_unix_epoch is pinned to the true day count by recurrences (epoch, year step, month step, day step, leap rule) each decided for every i32 year; acceptance <=> real date, error kinds, strict monotonicity over two fully symbolic tuples, second 60; derive(Ord) of UtcDateTime is the lexicographic calendar order (Kani, two arbitrary values). No bound beyond the types.'),
     'C04': dict(engine='A', technique=TECH_A + '; compositional (callee contracts discharged by separate queries)', ref='DESIGN.md section 4, C04', note=NOTE_A + ' Assume-guarantee: calendar kernel summarised by uninterpreted functions whose axioms are discharged on the real MIR in the same run.',
                 text='Three layers, all i32 years and all instants: rule days equal the notation (Jn, n, Mm.w.d with solver-chosen witness), contracts of the calendar kernel, and the real 12-leaf decision tree with the real rule-day arithmetic for all 9 notation pairs. One known finding (F2) is keyed by role and reported as KNOWN-FINDING.'),
     'C11': dict(engine='A', technique=TECH_A + '; calendar abstraction with discharged contracts, case split on months', ref='DESIGN.md section 4, C11', note=NOTE_A,
@@ -22,21 +22,21 @@ CLAIMED = {
     'C03': dict(engine='B', technique=TECH_B, ref='DESIGN.md section 4, C03', note=NOTE_B,
                 text='Every table of <= 6 (thorough 8, optionally 12) transitions accepted by the real constructor, 3 distinguishable types, rule none/Fixed, with and without <= 3 leap records, every i64 instant: the binary-search lookup returns the reference scan\'s type by pointer identity; DateTime::from_timespec = lookup + fields of t+offset (S_pack).'),
     'C05': dict(engine='B', technique=TECH_B + '; civil time abstracted to its second count (contracts C01/C02)', ref='DESIGN.md section 4, C05/C06', note=NOTE_B,
-                text='Search vs forward lookup on every table zone up to the bound (<= 2 transitions quick, 3 thorough; + Fixed rule; leap variant), every civil second count and every instant: soundness, completeness, no duplicate valid instants, unique().'),
+                text='Search vs forward lookup on every table zone up to the bound (<= 2 transitions quick, 3 thorough; + Fixed rule; leap variant), every civil second count and every instant: soundness, completeness, no duplicate valid instants, unique(); the caller\'s buffer holds stale entries. DST-rule zones (thorough): the real search over abstract rule-day instants obeying contracts discharged in C04, against the real lookup (c05_rule_abstract) and against the C04 specification (c05_rulespec_*).'),
     'C06': dict(engine='B', technique=TECH_B + '; civil time abstracted to its second count (contracts C01/C02)', ref='DESIGN.md section 4, C05/C06', note=NOTE_B,
-                text='Same zones: each Skipped entry is a real forward jump containing the local time with the right before/after types; every table gap containing it is reported; ascending order; earliest/latest are the extremes.'),
+                text='Same zones: each Skipped entry is a real forward jump containing the local time with the right before/after types; every table gap containing it is reported; ascending order; earliest/latest are the extremes and ignore stale buffer slots. DST-rule zones in the thorough tier (c06_rule_abstract, c06_rulespec_*).'),
     'C07': dict(engine='AB', technique=TECH_A + ' for every overflow/bounds/division/cast/unreachable/unwinding site; ' + TECH_B + ' default checks', ref='DESIGN.md section 4, C07', note=NOTE_A + ' ' + NOTE_B,
                 text='Panic-freedom as proof obligations: all arithmetic kernels for ALL inputs (Engine A), table/constructor/search/parser units under CBMC\'s checks with unwinding assertions (Engine B); allocation bounded by bytes present (layout harness).'),
     'C08': dict(engine='B', technique=TECH_B + '; unit contracts + composition with abstracted callees', ref='DESIGN.md section 4, C08', note=NOTE_B + ' Paper step: units = reference and composition = reference composition => whole decoder = reference.',
                 text='Real parse_header (all buffers <= 46 B), read_data_blocks::<4>/<8> (all u32 counts), DataBlocks::parse on minimal shapes with symbolic bytes, parse_footer framing, and parse_tz_file on arbitrary <= 112-byte files with record decoding abstracted, each against an RFC 8536 reference typed in the harness.'),
     'C09': dict(engine='B', technique=TECH_B + '; unit contracts + composition with abstracted callees', ref='DESIGN.md section 4, C09', note=NOTE_B + ' S_utf8 stub discharged on <= 3 arbitrary bytes.',
-                text='Each TZ-string sub-parser on arbitrary ASCII bytes up to its longest sentence (5..10 bytes) against a reference recogniser (accept/reject, value, bytes consumed); parse_posix_tz on <= 6 arbitrary bytes with abstracted callees against a replay of the grammar on the call log (negation, default DST offset, default 02:00, separators, trailing data).'),
+                text='Each TZ-string sub-parser on arbitrary ASCII bytes up to its longest sentence (5..10 bytes) against a reference recogniser (accept/reject, value, bytes consumed); parse_posix_tz on <= 6 arbitrary bytes with abstracted callees against a replay of the grammar on the call log (negation, default DST offset, default 02:00, separators, trailing data); rule times additionally through parse_rule_block with the real time parsers behind it (harnesses that survive refactors of the private units).'),
     'C13': dict(engine='AB', technique=TECH_B + '; ' + TECH_A + ' for the designation / local-time-type constructors', ref='DESIGN.md section 4, C13', note=NOTE_B + ' ' + NOTE_A,
                 text='TimeZoneRef::new / TimeZone::new on arbitrary lists (<= 3 each): Ok <=> spec predicate, every error kind names a violated clause, owned = borrowed; TzAsciiStr::new/as_bytes and LocalTimeType::new for every slice of length 0..9.'),
     'C14': dict(engine='AB', technique=TECH_A + ' for the constructors; ' + TECH_B + ' for plumbing and comparisons', ref='DESIGN.md section 4, C14', note=NOTE_A + ' ' + NOTE_B,
-                text='Invariant per constructor for all inputs (DateTime::new, from_timespec_and_local on the MIR), from_timespec/project preserve instant and nanoseconds (Kani), equality/ordering depend only on (unix_time, ns) for arbitrary literals (Kani).'),
-    'C16': dict(engine='A', technique=TECH_A, ref='DESIGN.md section 4, C16', note=NOTE_A + ' Floor model of i128::div_euclid/rem_euclid.',
-                text='All i128 nanosecond counts and all (i64,u32) pairs: split exact and floor-based, accepted <=> seconds fit i64, recombination exact, constructors from total nanoseconds equal the pair constructors, round trips, nanoseconds >= 1e9 refused.'),
+                text='Invariant per constructor for all inputs (DateTime::new, from_timespec_and_local on the MIR), from_timespec/project preserve instant and nanoseconds (Kani), equality/ordering depend only on (unix_time, ns) for arbitrary literals (Kani); every entry the search hands out on leap-second zones satisfies the invariant (Kani).'),
+    'C16': dict(engine='AB', technique=TECH_A + '; ' + TECH_B + ' for the zone-taking constructor', ref='DESIGN.md section 4, C16', note=NOTE_A + ' Floor model of i128::div_euclid/rem_euclid.',
+                text='All i128 nanosecond counts and all (i64,u32) pairs: split exact and floor-based, accepted <=> seconds fit i64, recombination exact, constructors from total nanoseconds equal the pair constructors, round trips, nanoseconds >= 1e9 refused; the zone-taking constructor equals from_timespec on the floor split for every table zone of the bound (Kani, split replaced by its proven contract).'),
     'C17': dict(engine='B', technique=TECH_B, ref='DESIGN.md section 4, C17', note=NOTE_B,
                 text='Both instantiations of the generic search on the same symbolic zone and civil time, for every buffer length 0..N+2 with a stale sentinel: count, prefix, exhaustiveness, untouched slots, error kind, unique/earliest/latest; Vec instantiation entry-wise equal.'),
     'C18': dict(engine='A', technique=TECH_A + '; core::fmt abstracted as output events, templates compared with the compiler\'s own for the prescribed format strings', ref='DESIGN.md section 4, C18', note=NOTE_A + ' core::fmt rendering of a given template is trusted (cross-checked natively on concrete values).',
@@ -44,7 +44,7 @@ CLAIMED = {
     'C19': dict(engine='AB', technique=TECH_A + ' and ' + TECH_B + ', run per feature configuration', ref='DESIGN.md section 4, C19', note=NOTE_A + ' ' + NOTE_B,
                 text='The crate is built (MIR) with no features, alloc, and std; kernel MIR compared across configurations; a core set of claims decided on each configuration\'s own MIR; allocation-free harnesses verified under each feature set.'),
     'C20': dict(engine='AB', technique=TECH_B + ' over a nondeterministic virtual file system; ' + TECH_A + ' (structural reading of the MIR) for the path template', ref='DESIGN.md section 4, C20', note=NOTE_B + ' S_tzfile, S_fmt_token stubs.',
-                text='For each listed TZ value and directory list, every file-system response table: exact read sequence (order, stop at first readable, no read for the empty value), result class (Ok / TzFile without fallback / Io / POSIX fallback on the trimmed string); candidate path = format!("{}/{}", dir, name).'),
+                text='For each listed TZ value and directory list, every file-system response table: exact read sequence (order, stop at first readable, no read for the empty value), result class (Ok / TzFile without fallback / Io / POSIX fallback on the trimmed string); candidate path = format!("{}/{}", dir, name), and the looked-up name is the value exactly as given (MIR call-site reading + a padded-absolute-path instance).'),
 }
 NA = {
     'C10': 'oracle is glibc/CPython run on concrete IANA files: foreign code cannot be executed symbolically and comparing concrete runs is enumeration, not a solver verdict (DESIGN.md section 5)',
